@@ -86,6 +86,14 @@ Theorem C16_reread : forall p v,
   view_from_proto p = Ok v -> view_from_proto (view_to_proto v) = Ok v.
 Proof. exact view_reread. Qed.
 
+(** The same for operations: whatever read_operation returns is well-formed and re-reads. *)
+Theorem C16_read_op_is_wf : forall p o, read_operation p = Ok o -> wf_op o.
+Proof. exact read_operation_wf. Qed.
+
+Theorem C16_op_reread : forall p o,
+  read_operation p = Ok o -> read_operation (operation_to_proto o) = Ok o.
+Proof. exact operation_reread. Qed.
+
 (** O3: outside [wf_view] the round trip fails — an absent local bookmark target is dropped
     by the legacy form. (jj_lib::view::View::set_local_bookmark_target removes the entry
     instead of storing an absent target; the correspondence run checks [wf_viewb] on views
